@@ -19,7 +19,7 @@ func init() {
 		ID:         "C16",
 		Title:      "Bits / Bitmap / dsz.Bits behave as sets of unsigned integers, incl. bulk operations",
 		Quick:      20000,
-		Thorough:   1500000,
+		Thorough:   800000,
 		Gen:        gen,
 		Corpus:     corpus,
 		Impl:       impl,
